@@ -154,6 +154,8 @@ structure ShState where
   strict : Bool
   param  : Bool          -- the value is an `nn.Parameter`
   val    : Val
+  /-- `live`: every assignment through the `value` setter is constraint-checked -/
+  live   : Bool := false
 deriving Repr, DecidableEq
 
 /-- `ShapedTensor.valid` (owner alive): `_ignore_or_compatible`. -/
@@ -174,6 +176,7 @@ inductive ShOp where
   | recon (dim : Int) (size : Option Int)
   | assign (v : Val)
   | setStrict (b : Bool)
+  | setLive (b : Bool)
 deriving Repr
 
 inductive ShOut where
@@ -195,12 +198,15 @@ def shStep (s : ShState) : ShOp → ShState × ShOut
   | .recon dim size => shApply s (reconDecide s.cons s.strict s.val.shape? dim size)
   | .assign v =>
     if s.param && v == .none then (s, .err .RuntimeError)   -- cannot assign None to a parameter
+    else if s.live && !({ s with val := v } : ShState).valid then
+      (s, .err .ValueError)                                  -- live: an incompatible value is refused, nothing changes
     else ({ s with val := v }, .unit)
   | .setStrict b => ({ s with strict := b }, .unit)
+  | .setLive b => ({ s with live := b }, .unit)
 
 /-- `ShapedTensor.__init__`: refuses an initial value that is neither ignored nor compatible. -/
-def shConstruct (cons : Cons) (strict param : Bool) (v : Val) : Except Err ShState :=
-  let s : ShState := ⟨cons, strict, param, v⟩
+def shConstruct (cons : Cons) (strict param : Bool) (v : Val) (live : Bool := false) : Except Err ShState :=
+  let s : ShState := ⟨cons, strict, param, v, live⟩
   if s.valid then .ok s else .error .RuntimeError
 
 end InfernoVerif.Shaped
